@@ -22,7 +22,9 @@ SevRows == [tech : {"sev"}, bpolicy : PolicyVals, bmeas : Tri, bsvn : {"unset", 
             bid : BOOLEAN, bauth : BOOLEAN,
             bundle : {"none", "id", "id_author", "three", "wrongtype", "wrongauthor", "garbage"},
             count : {"listed", "unlisted", "zero"}, ow : BOOLEAN, unspec : BOOLEAN]
-TdxRows == [tech : {"tdx"}, base : {"nil", "nobody", "body_nolist", "list_same", "list_diff"},
+\* "pin_listed" / "pin_other": the base pins one MRTD (mr_td) -- an endorsed one / another -- and has no
+\* allow-list: the pin is a field the derivation does not own and survives it
+TdxRows == [tech : {"tdx"}, base : {"nil", "nobody", "body_nolist", "list_same", "list_diff", "pin_listed", "pin_other"},
             ram : {"listed", "unlisted", "zero"}, ow : BOOLEAN]
 
 Err(why) == [err |-> why]
